@@ -88,15 +88,15 @@ func TestVF_C19(t *testing.T) {
 	defer r.Finish()
 	// Bounds per tier (construction cost grows ~ n^3 per layout under -race):
 	// quick:    all variants for n <= 5; ketama and hashmod only for n = 6..8; naming blocks (+unnamed)
-	// thorough: ketama and hashmod for n <= 12, shuffle variants for n <= 7; namings blocks, interleaved (+unnamed)
-	maxN := r.N(8, 12)
-	maxShuffleN := r.N(5, 7)
+	// thorough: ketama and hashmod for n <= 10, shuffle variants for n <= 6; namings blocks, interleaved for n <= 8 (+unnamed)
+	maxN := r.N(8, 10)
+	maxShuffleN := r.N(5, 6)
 	r.Rule(fmt.Sprintf("case = (multiset of zone sizes with 1..%d endpoints over <=4 zones) x endpoint naming {blocks%s; unnamed for one zone} x RF 1..n x "+
 		"{ketama, hashmod; for n<=%d also ketama+shuffle-sharding with shard size in %s, zone-aware and zone-unaware, up to 3 tenants}, production SectionsPerNode; "+
 		"oracle: NewMultiHashring (and, for a ring it returns, GetN for n<RF incl. the per-tenant sub-ring build of shuffle sharding) returns a ring/endpoint or an error without "+
 		"the ketama selection loop completing a full lap of the ring without adding a replica (hook ketama.scan) and without panicking; "+
 		"distinct = configuration; non-trivial = ketama variant with >=2 zones (the zone-balancing rule is active)",
-		maxN, map[bool]string{false: "", true: ", interleaved"}[r.Thorough()], maxShuffleN, map[bool]string{false: "{RF}", true: "{RF,n}"}[r.Thorough()]))
+		maxN, map[bool]string{false: "", true: ", interleaved (n<=8)"}[r.Thorough()], maxShuffleN, map[bool]string{false: "{RF}", true: "{RF,n}"}[r.Thorough()]))
 	r.Assume("a full lap of calculateSectionReplicas' cursor over the ring without a replica being added implies non-termination (loop state repeats); decided on hook events, not on time")
 	r.Assume(fmt.Sprintf("wall-clock backstop %s per call only ever yields INCONCLUSIVE", vfc19Backstop))
 	r.Exhaustive(true)
@@ -107,7 +107,7 @@ func TestVF_C19(t *testing.T) {
 			namings := []string{"blocks"}
 			if len(layout) == 1 {
 				namings = append(namings, "unnamed")
-			} else if r.Thorough() {
+			} else if r.Thorough() && n <= 8 {
 				namings = append(namings, "interleaved")
 			}
 			for _, naming := range namings {
